@@ -277,7 +277,9 @@ def check_pipeline(case):
     ds, _ = progcheck.build_checked(node)
     desc = f'program: {progs.show(node)}'
     n = m.n
-    for k in range(-1, n + 3):
+    # every k for short pipelines; a spread of counts beyond (the work is cubic in n otherwise)
+    ks = range(-1, n + 3) if n <= 40 else sorted({-1, 0, 1, 2, 3, 7, n // 3, n // 2, n - 1, n, n + 1, n + 2})
+    for k in ks:
         valid = 1 <= k <= n
         try:
             shards = ds.split(k)
@@ -298,7 +300,7 @@ def check_pipeline(case):
             kflat = [kk for s in shards for kk in s.keys()]
             if kflat != list(m.keys):
                 raise Violation('keys-partition|pipeline', f'{desc} k={k}: keys {kflat}')
-        for i in range(k):
+        for i in (range(k) if k <= 40 else sorted({0, 1, k // 2, k - 2, k - 1})):
             if not observe.same_list(list(ds.shard(k, i)), lists[i]):
                 raise Violation('shard-vs-split|pipeline', f'{desc} k={k} i={i}')
     return n
